@@ -655,28 +655,37 @@ static void
 case_sender(uint64_t idx, void *arg) {
   (void)arg;
   static const int freqs[] = {1, 2, 3, 5};
-  static const int starts[] = {0, 4};
+  /* the last two lineages reach the end of the 40-bit Partial IV space (RFC 8613 7.2.1: the sender must stop there) */
+  static const uint64_t starts[] = {0, 4, (1ull << 40) - 6, (1ull << 40) - 2};
   int f = freqs[idx % 4];
   uint64_t x = idx / 4;
-  int st = starts[x % 2];
-  x /= 2;
+  uint64_t st = starts[x % 4];
+  x /= 4;
   int crash1 = (int)(x % 10); /* 0..7: die after that many sends; 8: die inside the 1st save callback; 9: inside the 2nd */
   x /= 10;
   int crash2 = (int)(x % 10); /* second life, same coding; 9 = no second crash (run 8 sends) */
   nwire = 0;
-  saved_val = (uint64_t)st; /* what non-volatile memory holds before the first life */
-  sender_life(f, (uint64_t)st, 8, crash1 < 8 ? crash1 : -1, crash1 == 8 ? 1 : crash1 == 9 ? 2 : 0);
+  saved_val = st; /* what non-volatile memory holds before the first life */
+  sender_life(f, st, 8, crash1 < 8 ? crash1 : -1, crash1 == 8 ? 1 : crash1 == 9 ? 2 : 0);
   uint64_t resume = saved_val;
   sender_life(f, resume, 8, crash2 < 8 ? crash2 : -1, crash2 == 8 ? 1 : 0);
   uint64_t resume2 = saved_val;
   sender_life(f, resume2, 4, -1, 0);
+  /* a lineage that starts at st > 0 stands for an earlier history that was handed st by the save callback: every number below
+   * st may have been used by it */
+  for (int i = 0; i < nwire; i++)
+    if (wire_pivs[i] < st) {
+      vx_fail("piv-reuse:below-start-of-lineage", "Partial IV %llu on the wire although the sender was started from %llu (ssn_freq %d): numbers below the "
+              "start value belong to earlier lives", (unsigned long long)wire_pivs[i], (unsigned long long)st, f);
+      return;
+    }
   for (int i = 0; i < nwire; i++)
     for (int j = i + 1; j < nwire; j++)
       if (wire_pivs[i] == wire_pivs[j]) {
         char sig[100];
         snprintf(sig, sizeof sig, "piv-reuse:freq=%d:%s", f, crash1 >= 8 ? "crash-in-save-callback" : "crash-after-send");
-        vx_fail(sig, "Partial IV %llu visible twice on the wire: ssn_freq %d, start %d, life 1 %s, resumed at %llu, life 2 resumed at %llu",
-                (unsigned long long)wire_pivs[i], f, st, crash1 < 8 ? "killed after some sends" : "killed inside the save callback",
+        vx_fail(sig, "Partial IV %llu visible twice on the wire: ssn_freq %d, start %llu, life 1 %s, resumed at %llu, life 2 resumed at %llu",
+                (unsigned long long)wire_pivs[i], f, (unsigned long long)st, crash1 < 8 ? "killed after some sends" : "killed inside the save callback",
                 (unsigned long long)resume, (unsigned long long)resume2);
         return;
       }
@@ -684,7 +693,7 @@ case_sender(uint64_t idx, void *arg) {
   vxp_count(5, (uint64_t)nwire);
   vxp_distinct(vx_fnv(wire_pivs, sizeof(uint64_t) * (size_t)nwire, VX_FNV0));
   if (idx % 97 == 1)
-    vxp_sample("sender ssn_freq=%d start=%d crash1=%d crash2=%d: %d PIVs on the wire, resumed at %llu then %llu, all distinct", f, st, crash1, crash2,
+    vxp_sample("sender ssn_freq=%d start=%llu crash1=%d crash2=%d: %d PIVs on the wire, resumed at %llu then %llu, all distinct", f, (unsigned long long)st, crash1, crash2,
                nwire, (unsigned long long)resume, (unsigned long long)resume2);
 }
 
@@ -734,7 +743,7 @@ main(int argc, char **argv) {
   uint64_t total = 0;
   struct vxp_stats st;
   {
-    struct vxp_config c = {.space = "sender-crash-points", .total = 4 * 2 * 10 * 10, .chunk = 4};
+    struct vxp_config c = {.space = "sender-crash-points", .total = 4 * 4 * 10 * 10, .chunk = 4};
     vxp_enumerate(&c, case_sender, NULL, &st);
     total += st.done;
   }
@@ -757,7 +766,7 @@ main(int argc, char **argv) {
   vx_ev_rule("(every protected datagram the node emits is filed under the nonce it uses - own Partial IV, or the request's - and two different ciphertexts under one nonce fail; with B.1.2 the first request is delivered twice before the Echo round trip completes) recipient: all delivery histories of depth 1..3 (thorough 4) after one accepted message over {fresh(+gap in 1,2,3,[31],32,33,[63],64,65,"
              "[200]), late(-j) never delivered, replay of the last / previous / highest-PIV / first delivery, forgery claiming PIV 0, 1, highest, "
              "highest+1, highest+70, forged response without Partial IV to a request the node itself sent on the peer's session} x replay_window {32,63 at every depth; 2,1,3,33,64 at depth <= 2 (thorough: 2,1 also at depth 3; depth 4 with 32,63 and first PIV 0 only)} x Appendix B.1.2 {off,on} x first PIV {0,5} x (depth <= 2, windows 32 and 2) a forgery arriving before the first genuine message claiming the first PIV / first+70; messages manufactured by the "
-             "reference implementation; sender: ssn_freq {1,2,3,5} x start {0,4} x crash point of life 1 (after 0..7 sends, inside the 1st/2nd "
+             "reference implementation; sender: ssn_freq {1,2,3,5} x start {0, 4, 2^40-6, 2^40-2} (the last two run into the end of the Partial IV space) x crash point of life 1 (after 0..7 sends, inside the 1st/2nd "
              "save callback) x crash point of life 2, each life resuming from the last value the callback stored; distinct = distinct (history, verdict vector)");
   vx_ev_assumption("accept = the application's request handler ran; the reference implementation (validated on the RFC 8613 Appendix C vectors and against libcoap in C14) produces the datagrams");
   vx_ev_assumption("liveness (fresh messages inside the window are accepted) is reported as counters; verdicts are at-most-once, forgery-leaves-no-trace and PIV uniqueness");
